@@ -359,7 +359,7 @@ class linkseq(LinkSequence[_T], MutableSequence[_T]):
             arrival = value
             departure = self._link_at(index)
             self._hook_check((arrival,), (departure.value,))
-            departure.value = arrival
+            self._assign((departure,), (arrival,))
             return
 
         if isinstance(i, slice):
@@ -371,9 +371,7 @@ class linkseq(LinkSequence[_T], MutableSequence[_T]):
             if not len(range_):
                 return
             self._hook_check(arrivals, self[slice_])
-            link_it = iter_links_sliced(self, slice_)
-            for link, arrival in zip(link_it, arrivals):
-                link.value = arrival
+            self._assign(tuple(iter_links_sliced(self, slice_)), arrivals)
             return
 
         raise Emsg.InstCheck(i, (SupportsIndex, slice))
@@ -433,6 +431,14 @@ class linkseq(LinkSequence[_T], MutableSequence[_T]):
             else:
                 self.__link_last__ = link
         self.__len += 1
+
+    def _assign(self, links: Sequence[Link], values: Collection, /) -> None:
+        """Replace the values of Link entries already in the collection. This is
+        called by ``__setitem__`` with the links at the index or slice, and the
+        arriving values in the same order.
+        """
+        for link, value in zip(links, values):
+            link.value = value
 
     def _unlink(self, link: Link, /) -> None:
         """Remove a Link entry.
@@ -545,6 +551,16 @@ class linqset(linkseq[_T], MutableSequenceSet[_T]):
     def _spot(self, rel, neighbor, link: HashLink, /) -> None:
         super()._spot(rel, neighbor, link)
         self.__table[link.value] = link
+
+    def _assign(self, links, values, /) -> None:
+        # Drop the entries of all departing values before indexing the arrivals,
+        # since a value may move from one link to another.
+        table = self.__table
+        for link in links:
+            del table[link.value]
+        super()._assign(links, values)
+        for link in links:
+            table[link.value] = link
 
     def _unlink(self, link: HashLink, /) -> None:
         super()._unlink(link)
